@@ -41,6 +41,15 @@ fn features(p: &JPath) -> Vec<&'static str> {
             }
             Expr::Exists(_, s) => steps(s, f),
             Expr::Arith(_) => f.push("arith"),
+            Expr::ArithBin(_, l, r) => {
+                f.push("arith");
+                op(l, f, false);
+                op(r, f, false);
+            }
+            Expr::ArithUn(_, o) => {
+                f.push("arith");
+                op(o, f, false);
+            }
         }
     }
     fn steps(s: &[Step], f: &mut Vec<&'static str>) {
@@ -80,6 +89,8 @@ fn names_need_no_quoting(p: &JPath) -> bool {
             Expr::And(l, r) | Expr::Or(l, r) => ex(l) && ex(r),
             Expr::Exists(_, s) => steps(s),
             Expr::Arith(_) => true,
+            Expr::ArithBin(_, l, r) => op(l) && op(r),
+            Expr::ArithUn(_, o) => op(o),
         }
     }
     fn steps(s: &[Step]) -> bool {
@@ -214,7 +225,7 @@ pub fn run(ctx: &mut Ctx) {
         let mut rng = ctx.rng.fork();
         let doc = gen::doc(&mut rng, &gen::DOC_SMALL);
         let pg = PathGen::new(&doc);
-        let mut path = pg.path(&mut rng, &cfg);
+        let mut path = if i % 8 == 7 { arith_path(&pg, &mut rng) } else { pg.path(&mut rng, &cfg) };
         strip_empty_names(&mut path);
         let styles = [
             ("plain", RStyle { spacing: false, kwcase: false, quoting: false }),
@@ -236,6 +247,44 @@ pub fn run(ctx: &mut Ctx) {
     }
 }
 
+/// arithmetic forms of the golden file: a stand-alone binary or unary arithmetic expression over
+/// `$` paths and non-negative number literals, or one inside a filter over `@` paths
+fn arith_path(pg: &PathGen, rng: &mut Rng) -> JPath {
+    let inside_filter = rng.chance(1, 3);
+    let cfg = PathCfg { max_steps: 2, filters: false, big_indices: false };
+    let mut operand = |rng: &mut Rng| -> Operand {
+        if rng.chance(1, 3) {
+            // unsigned literals only: a sign next to an arithmetic operator is a different expression
+            Operand::Lit(Lit::Num(Num::U(rng.below(1000) as u64)))
+        } else {
+            let mut steps = pg.steps(rng, &cfg, false, 3);
+            if steps.is_empty() {
+                steps.push(Step::Name("a".into(), refpath::NameStyle::Dot));
+            }
+            // a path ending in `.*` followed by an operator is fine; one ending in a quoted name too
+            Operand::Path(!inside_filter, steps)
+        }
+    };
+    let e = if rng.chance(1, 5) {
+        let o = loop {
+            let o = operand(rng);
+            if matches!(o, Operand::Path(..)) {
+                break o;
+            }
+        };
+        Expr::ArithUn(*rng.pick(&['+', '-']), o)
+    } else {
+        let l = operand(rng);
+        let r = operand(rng);
+        Expr::ArithBin(*rng.pick(&['+', '-', '*', '/', '%']), l, r)
+    };
+    if inside_filter {
+        JPath::Steps(vec![Step::BracketWild, Step::Filter(Box::new(e))])
+    } else {
+        JPath::Predicate(e)
+    }
+}
+
 /// the empty *name* is not a documented form (the empty string *literal* is): replace it
 fn strip_empty_names(p: &mut JPath) {
     fn ex(e: &mut Expr) {
@@ -250,6 +299,11 @@ fn strip_empty_names(p: &mut JPath) {
             }
             Expr::Exists(_, s) => steps(s),
             Expr::Arith(_) => {}
+            Expr::ArithBin(_, l, r) => {
+                op(l);
+                op(r);
+            }
+            Expr::ArithUn(_, o) => op(o),
         }
     }
     fn op(o: &mut Operand) {
